@@ -701,3 +701,74 @@ def header_name_key_rule(ctx, rule):
                   'a field whose name is followed by white space before the colon (`Content-Encoding : gzip`) is stored under a key '
                   'no reader asks for: the body is treated as not encoded / not length-delimited', parse.loc(c))
     return len(adds)
+
+
+def redirect_target_guarded_rule(ctx, rule):
+    """A redirect's Location is server data.  Wherever the web session turns it into a request - `<request>.url = location` (the
+    setter parses), the request factory, prepare_for_send() of the retargeted copy - a ValueError of the URL parser must become
+    ProtocolError: the site lies in a `try` with a ValueError handler, or in a helper of the class all of whose call sites do."""
+    import ast
+    from .. import util as U
+    from ..index import norm_text, walk_no_nested
+    repo, ck = ctx.repo, ctx.check
+    ws = repo.cls('wpull.protocol.http.web:WebSession')
+
+    def in_value_try(m, node, pm):
+        for a in U.ancestors(node, pm):
+            if isinstance(a, ast.Try) and any(any(node is x for x in ast.walk(b)) for b in a.body):
+                for h in a.handlers:
+                    ts = [norm_text(t) for t in (h.type.elts if isinstance(h.type, ast.Tuple) else [h.type])] if h.type is not None else ['BaseException']
+                    if any(t in ('ValueError', 'Exception', 'BaseException') for t in ts):
+                        return True
+        return False
+
+    def guarded(m, node, depth=0):
+        pm = U.parents(m.node)
+        if in_value_try(m, node, pm):
+            return True
+        if depth >= 2:
+            return False
+        callers = []
+        for m2 in ws.methods.values():
+            for c2 in U.calls(m2.node):
+                if isinstance(c2.func, ast.Attribute) and c2.func.attr == m.name and isinstance(c2.func.value, ast.Name) and c2.func.value.id == 'self':
+                    callers.append((m2, c2))
+        return bool(callers) and all(guarded(m2, c2, depth + 1) for m2, c2 in callers)
+
+    def from_location(m, e, seen=()):
+        """the expression carries the redirect location: the tracker's next_location(), or a parameter fed with it"""
+        for x in ast.walk(e):
+            if isinstance(x, ast.Call) and U.attr_name(x) == 'next_location':
+                return True
+            if isinstance(x, ast.Name):
+                for v, k, st in U.local_defs(m.node).get(x.id, []):
+                    if k == 'assign' and v is not None and any(isinstance(y, ast.Call) and U.attr_name(y) == 'next_location' for y in ast.walk(v)):
+                        return True
+                    if k == 'param' and m.name not in seen:
+                        pi = m.params.index(x.id)
+                        for m2 in ws.methods.values():
+                            for c2 in U.calls(m2.node):
+                                if isinstance(c2.func, ast.Attribute) and c2.func.attr == m.name and isinstance(c2.func.value, ast.Name) and c2.func.value.id == 'self':
+                                    a2 = c2.args[pi - 1] if 0 <= pi - 1 < len(c2.args) else next((kw.value for kw in c2.keywords if kw.arg == x.id), None)
+                                    if a2 is not None and from_location(m2, a2, seen + (m.name,)):
+                                        return True
+        return False
+    n = 0
+    for m in ws.methods.values():
+        for st in walk_no_nested(m.node):
+            site = None
+            if isinstance(st, ast.Assign) and len(st.targets) == 1 and isinstance(st.targets[0], ast.Attribute) and st.targets[0].attr in ('url', 'url_info') \
+                    and not U.is_self_attr(st.targets[0]) and from_location(m, st.value):
+                site = (st, '%s = <redirect location>' % norm_text(st.targets[0]))
+            elif isinstance(st, ast.Call) and U.attr_name(st) in ('_request_factory',) and st.args and from_location(m, st.args[0]):
+                site = (st, '%s(<redirect location>)' % norm_text(st.func))
+            if site is None:
+                continue
+            n += 1
+            ck.expect(guarded(m, site[0]), rule, m.qual, site[1] + ' inside try/except ValueError',
+                      'the redirect location is parsed outside any ValueError handler: a Location that joins but does not parse '
+                      '(`http://no such host/`, port 99999) raises a bare ValueError out of the web session - no per-URL error, the crawl stops',
+                      m.loc(site[0]))
+    if n < 2:
+        raise AnalysisError('WebSession: expected the retargeting store and the request factory call on the redirect location (found %d)' % n)
+    return n
